@@ -35,6 +35,21 @@ Section WithOracles.
         end
     end.
 
+  (* the create path persists the index (saveStateUnsafe) before it answers; when that fails the new entry is
+     taken out of tmap and smap again and the call fails.  [savefails] = the persistence would fail now.  The
+     save is attempted only when a new entry was made, i.e. when the table grew. *)
+  Definition goc_fault (st : tstate) (text : bytes) (savefails : bool) : tstate * goc_result :=
+    let '(st', r) := get_or_create st text true in
+    if savefails && negb (Nat.eqb (length (t_map st')) (length (t_map st))) then (st, GErr) else (st', r).
+
+  (* a history of calls, each with its fault flag *)
+  Fixpoint run_f (st : tstate) (ops : list (bytes * bool)) : tstate * list goc_result :=
+    match ops with
+    | [] => (st, [])
+    | (t, f) :: tl => let '(st1, r) := goc_fault st t f in
+                      let '(st2, rs) := run_f st1 tl in (st2, r :: rs)
+    end.
+
   (* a history of GetOrCreateJournal calls *)
   Fixpoint run (st : tstate) (texts : list bytes) : tstate * list goc_result :=
     match texts with
